@@ -108,9 +108,10 @@ class LRTDP(Plans):
             policy_dict[s] = self.policy(mdp, s)
             for a in mdp.actions(s):
                 q_values[s][a] = self.Q(mdp, s, a)
-        for s, is_solved in self.res.solved.items():
-            if is_solved and s not in policy_dict and not mdp.is_absorbing(s):
-                policy_dict[s] = self.policy(mdp, s)
+        # A labelled state keeps the greedy action it was labelled with: its residual under that
+        # action was checked and stays valid, whereas values of unlabelled states may still have moved.
+        for s, a in self.res.solved_action.items():
+            policy_dict[s] = a
         res.Q = q_values
 
         @FunctionalPolicy
@@ -152,6 +153,7 @@ class LRTDP(Plans):
 
         # Keeping track of "labels": which states have been solved
         self.res.solved = defaultdict2(lambda s: False)
+        self.res.solved_action = dict()
 
         for i in range(iterations):
             if all(self.res.solved[s] for s, p in mdp.initial_state_dist().items() if p > 0):
@@ -204,6 +206,7 @@ class LRTDP(Plans):
         if flag:
             for ns in closed:
                 self.res.solved[ns] = True
+                self.res.solved_action[ns] = self.policy(mdp, ns)
         else:
             while closed:
                 s = closed.pop()
